@@ -12,7 +12,7 @@ VARIABLE hist
 
 Known(c)  == c \in chans
 Fresh(m)  == m.ts > pol[<<m.c, m.d>>].ts
-GoodCU(m) == m.t = "CU" /\ CUSigValid(m) /\ m.fields = "ok"
+GoodCU(m) == m.t = "CU" /\ CUSigValid(m) /\ CUFieldsOk(m)
 GoodNA(m) == m.t = "NA" /\ NASigValid(m) /\ m.fields = "ok"
 
 Class(k) ==
@@ -27,15 +27,23 @@ Class(k) ==
     [] k = 9  -> {m \in CUUniverse : Known(m.c) /\ GoodCU(m) /\ ~Fresh(m)}
     [] k = 10 -> {m \in CUUniverse : m.ts = 0}
     [] k = 11 -> {m \in CUUniverse : Known(m.c) /\ GoodCU(m) /\ Fresh(m)
-                                     /\ pol[<<m.c, m.d>>].ts # 0 /\ pol[<<m.c, m.d>>].fee = m.fee}
+                                     /\ pol[<<m.c, m.d>>].ts # 0 /\ pol[<<m.c, m.d>>].fee = m.fee
+                                     /\ pol[<<m.c, m.d>>].mx = Mx(m)}
     [] k = 12 -> {m \in NAUniverse : GoodNA(m) /\ HasChan(m.n) /\ m.ts > nodes[m.n]}
     [] k = 13 -> {m \in NAUniverse : GoodNA(m) /\ ~HasChan(m.n)}
     [] k = 14 -> {m \in NAUniverse : ~GoodNA(m) /\ HasChan(m.n) /\ m.ts > nodes[m.n]}
     [] k = 15 -> {m \in NAUniverse : m.ts <= nodes[m.n]}
     [] k = 16 -> {m \in CAUniverse \cup CUUniverse : <<m.c, m.peer>> \in rejects}
+    [] k = 18 -> {z \in ZOUniverse : z.c \notin chans \cup zombie}
+    [] k = 19 -> {m \in CUUniverse : m.c \in zombie /\ zkeys[m.c] # {} /\ m.ts > 0 /\ m.fields = "ok"
+                                     /\ m.bad \in {"none", "sig"}}
+    [] k = 20 -> {m \in CUUniverse : Known(m.c) /\ m.bad = "none" /\ m.signer = Own(m.d) /\ Fresh(m)
+                                     /\ m.fields \notin {"ok", "nomaxflag", "maxzero", "maxltmin"}}
+    [] k = 21 -> {m \in CUUniverse : Known(m.c) /\ GoodCU(m) /\ ~Fresh(m) /\ m.ts > 0 /\ m.fields # "ok"}
     [] OTHER  -> Universe
 \* weights: valid channel announcements and fresh valid updates are drawn more often
-ClassSeq == <<1, 1, 1, 2, 3, 4, 5, 5, 5, 6, 6, 7, 7, 8, 9, 10, 11, 12, 12, 13, 14, 15, 16, 17>>
+ClassSeq == <<1, 1, 1, 2, 3, 4, 5, 5, 5, 6, 6, 7, 7, 8, 9, 10, 11, 12, 12, 13, 14, 15, 16, 17,
+              18, 19, 19, 20, 21>>
 
 ReplayPending == \E c \in chans : stash[c] # <<>>
 
@@ -44,7 +52,7 @@ GNext == \/ /\ ~ReplayPending /\ Len(hist) < MaxLen
             /\ \E j \in 1..Len(ClassSeq) :
                  /\ Class(ClassSeq[j]) # {}
                  /\ \E m \in RandomSubset(1, Class(ClassSeq[j])) :
-                      Recv(m) /\ hist' = Append(hist, m)
+                      Step(m) /\ hist' = Append(hist, m)
          \/ /\ ReplayPending
             /\ \E c \in chans : \E i \in 1..Len(stash[c]) : ReplayOne(c, i)
             /\ UNCHANGED hist
